@@ -39,11 +39,12 @@ inductive Trans (s : CSt) : CEv → Nat → Con → Con → Prop where
       Trans s (.recheck a) a c { c with pc := .waiting n ch }
   | waitCancel (a n ch : Nat) (c : Con) (h : c.pc = .waiting n ch) (hc : c.cancelled = true) :
       Trans s (.waitCancel a) a c { c with pc := .exitWait 0 9, mainOwns := !flagOf s.b a }
-  | awaitErr (a v e : Nat) (c : Con) (h : c.pc = .awaiting) (hp : c.prom = some (v, e)) (he : e ≠ 0) :
+  | awaitErr (a v e : Nat) (c : Con) (h : c.pc = .awaiting) (hp : c.prom = some (v, e)) (he : e ≠ 0)
+      (hop : c.op ≠ .promise) :
       Trans s (.await a) a c { c with pc := .exitWait v e, mainOwns := !flagOf s.b a }
-  | awaitOk (a v : Nat) (c : Con) (h : c.pc = .awaiting) (hp : c.prom = some (v, 0)) :
+  | awaitOk (a v : Nat) (c : Con) (h : c.pc = .awaiting) (hp : c.prom = some (v, 0)) (hop : c.op ≠ .promise) :
       Trans s (.await a) a c { c with pc := .exitKeep v 0 }
-  | awaitCancel (a : Nat) (c : Con) (h : c.pc = .awaiting) (hc : c.cancelled = true) :
+  | awaitCancel (a : Nat) (c : Con) (h : c.pc = .awaiting) (hc : c.cancelled = true) (hop : c.op ≠ .promise) :
       Trans s (.awaitCancel a) a c { c with pc := .exitWait 0 9, mainOwns := !flagOf s.b a }
   | retWait (a v e : Nat) (c : Con) (h : c.pc = .exitWait v e) : Trans s (.ret a v e) a c { c with pc := .returned }
   | retKeep (a v e : Nat) (c : Con) (h : c.pc = .exitKeep v e) : Trans s (.ret a v e) a c { c with pc := .returned }
@@ -278,9 +279,9 @@ theorem cstep_frame (s s' : CSt) (e : CEv) (hs : cstep s e = some s') : Frame s 
       · rename_i he
         simp at hs; subst hs
         subst he
-        exact frame_set s s.b _ a c _ hc (.awaitOk a v c hcond.1 hp)
+        exact frame_set s s.b _ a c _ hc (.awaitOk a v c hcond.1 hp hcond.2.1)
       · rename_i he
-        exact frame_exitRel s s' _ a c c v e hc (.awaitErr a v e c hcond.1 hp he) hs
+        exact frame_exitRel s s' _ a c c v e hc (.awaitErr a v e c hcond.1 hp he hcond.2.1) hs
   | awaitCancel a =>
     simp only [cstep] at hs
     cases hc : getCon s a with
@@ -289,7 +290,7 @@ theorem cstep_frame (s s' : CSt) (e : CEv) (hs : cstep s e = some s') : Frame s 
       simp only [hc] at hs
       split at hs <;> try simp at hs
       rename_i hcond
-      exact frame_exitRel s s' _ a c c 0 9 hc (.awaitCancel a c hcond.1 hcond.2) hs
+      exact frame_exitRel s s' _ a c c 0 9 hc (.awaitCancel a c hcond.1 hcond.2.2 hcond.2.1) hs
   | ret a v e =>
     simp only [cstep] at hs
     cases hc : getCon s a with
@@ -343,6 +344,7 @@ theorem cstep_frame (s s' : CSt) (e : CEv) (hs : cstep s e = some s') : Frame s 
       simp only [hc] at hs
       split at hs <;> try simp at hs
       obtain ⟨_, rfl⟩ := hs; exact frame_same _ _ _ (fun _ => rfl)
+  | probeProm a h v e => rw [(probeProm_step s s' a h v e hs).1]; exact frame_same _ _ _ (fun _ => rfl)
   | probe v e =>
     simp only [cstep] at hs; split at hs <;> simp at hs; subst hs; exact frame_same _ _ _ (fun _ => rfl)
   | quiesce B =>
